@@ -11,6 +11,18 @@ claimed = {
    note="Trusted: models of stdlib/dependency functions (asn1, ndr/mstypes readers, strings, net, crypto primitives) listed in evidence.trusted_base; pointers loaded from memory non-nil unless declared nullable; len<=2^48; functions outside the subset (channels) listed; assume_obligation entries listed.",
    design="4/C04"),
 }
+claimed["C14"]=dict(
+   technique="contract-based deductive verification: functional contracts on the real keytab lookup and readers (pre/postconditions, loop invariants with quantifiers) discharged by z3/cvc5 via gowp",
+   category="proof",
+   text="GetEncryptionKey is proved, for every keytab and query, to return only an entry matching realm, all components, etype and kvno (any when 0), never one with a strictly newer matching sibling, and to fail when nothing matches. The readers are proved to decode exactly the bytes at the cursor in the file's byte order; Unmarshal is proved memory-safe and terminating. The whole-file round trip is not yet under contract (listed as not decided).",
+   note="Trusted: bytes.Buffer/binary.Read models, isNativeEndianLittle (unsafe), 0<=kvno<2^32 precondition.",
+   design="4/C14")
+claimed["C17"]=dict(
+   technique="contract-based deductive verification: RFC 4121 byte layouts and acceptance conditions as postconditions on the real Marshal/Unmarshal/checksum/Verify functions, checksum as an uninterpreted RFC function shared with the etype interface contract; discharged by z3/cvc5 via gowp",
+   category="proof",
+   text="For every payload, flags, sequence number, key and usage: Marshal == RFC 4121 4.2.6 layout, Unmarshal accepts exactly well-formed tokens of the expected direction and returns their fields, the checksum input is {payload | header with EC=RRC=0}, Verify succeeds only if the token checksum equals the checksum of the presented fields.",
+   note="Trusted: et_cksum is uninterpreted (C07 relates it to the HMAC composition); MAC assumption for 'every bit matters'; binary.BigEndian and hmac.Equal models.",
+   design="4/C17")
 hooks=subprocess.run("git -C /repo log --format='%H %s' | grep ' verif:' | awk '{print $1}'",shell=True,capture_output=True,text=True).stdout.split()
 m={"version":1,
  "setup_cmd":"./setup.sh",
@@ -22,6 +34,12 @@ m={"version":1,
 for pid in ids:
     if pid in claimed:
         c=claimed[pid]
+        try:
+            lvl=json.load(open(f'/verif/evidence/{pid}.json'))['level']
+            if lvl!=c["category"]:
+                c["category"]=lvl
+                c["text"]+=" NOTE: some obligations are open known findings (see known_findings.json), so the evidence level is reported as 'other', not as a completed proof."
+        except Exception: pass
         m["checks"].append({"property_id":pid,"quick_cmd":f"./check {pid} quick","thorough_cmd":f"./check {pid} thorough","evidence_file":f"evidence/{pid}.json","replay_cmd_template":f"./check {pid} quick --replay {{path}}","engine":"gowp",
           "level_claimed":{"category":c["category"],"text":c["text"],"design_ref":c["design"]},"level_note":c["note"],"technique":c["technique"]})
     else:
